@@ -93,7 +93,7 @@ static int gen_c14(cs_t *cs, void *k, const runcfg_t *cfg) {
 
 /* symbol -> character */
 static uint32_t sym_char(int wide, int s) {
-    static const uint32_t nar[5] = {'a', ',', 'b', ';', '-'};
+    static const uint32_t nar[5] = {'a', ',', 0xE9 /* a high-bit byte inside tokens */, 0xA0 /* a high-bit delimiter: char is signed here */, '-'};
     static const uint32_t wid[5] = {0x0100, ',', 'b', 0x3B00, 0x2D2D};
     if (s < SY_FILL0) return wide ? wid[s] : nar[s];
     return (wide ? 0x4100u : (uint32_t)'A') + (uint32_t)(s - SY_FILL0);
